@@ -71,7 +71,7 @@ def run(ctx) -> None:
             resets = [x for x in before if x.kind == "store" and x.extra.get("attr") == "_events"]
             if not resets:
                 okb, msgb = False, "the pending list is not reset before the callback: the same events are delivered again with the next batch"
-            batch_names = {x.extra.get("name") for x in before if x.kind == "assign" and re.search(r"= self\._events\b", x.raw or x.text)}
+            batch_names = {x.extra.get("name") for x in before if x.kind == "assign" and (re.search(r"= self\._events\b", x.raw or x.text) or re.fullmatch(r"\w+ = self\._events", x.text))}
             if not (arg == "self._events" or arg.rstrip("'") in batch_names):
                 okb, msgb = False, f"the callback gets `{arg}` instead of the swapped-out batch"
             if arg == "self._events" and resets:
